@@ -91,15 +91,25 @@ pub fn gen_valid_ranges(ch: &mut Choices, version: u16, has_base: bool, a: u8) -
     v
 }
 
+/// The expression of a location list entry: now and then the empty one (the object has no location in that range,
+/// which is not the same as having no entry: a default location would apply there otherwise).
+pub fn gen_loc_expr(ch: &mut Choices) -> Vec<WOp> {
+    if ch.chance(20) {
+        Vec::new()
+    } else {
+        gen_simple_expr(ch, 1)
+    }
+}
+
 pub fn gen_valid_locs(ch: &mut Choices, version: u16, has_base: bool, a: u8) -> Vec<WLoc> {
     let r = gen_valid_ranges(ch, version, has_base, a);
     let mut v: Vec<WLoc> = r
         .into_iter()
         .map(|x| match x {
             WRange::BaseAddress(a) => WLoc::BaseAddress(a),
-            WRange::OffsetPair(b, e) => WLoc::OffsetPair(b, e, gen_simple_expr(ch, 1)),
-            WRange::StartEnd(b, e) => WLoc::StartEnd(b, e, gen_simple_expr(ch, 1)),
-            WRange::StartLength(b, l) => WLoc::StartLength(b, l, gen_simple_expr(ch, 1)),
+            WRange::OffsetPair(b, e) => WLoc::OffsetPair(b, e, gen_loc_expr(ch)),
+            WRange::StartEnd(b, e) => WLoc::StartEnd(b, e, gen_loc_expr(ch)),
+            WRange::StartLength(b, l) => WLoc::StartLength(b, l, gen_loc_expr(ch)),
         })
         .collect();
     if version >= 5 && ch.chance(60) {
@@ -201,7 +211,9 @@ pub fn gen_wdwarf(ch: &mut Choices, cx: &mut Ctx) -> (WDwarf, Expect) {
                     19 => (0x49, WVal::DebugInfoRefSup(ch.biased(32))),
                     20 => {
                         if !u.locs.is_empty() {
-                            (0x02, WVal::LocationListRef(ch.below(u.locs.len())))
+                            // any of the attributes that may hold a location list (DW_AT_data_member_location among
+                            // them: a list pointer in every version, and in data4/data8 form before version 4)
+                            (ch.pick(&[0x02u16, 0x02, 0x38, 0x40, 0x2a, 0x19, 0x48, 0x4a, 0x4d]), WVal::LocationListRef(ch.below(u.locs.len())))
                         } else {
                             (0x3f, WVal::Flag(true))
                         }
@@ -360,6 +372,116 @@ pub fn gen_wdwarf(ch: &mut Choices, cx: &mut Ctx) -> (WDwarf, Expect) {
     (WDwarf { big, units, dummies }, expect)
 }
 
+/// The single-unit convenience writer (`DwarfUnit`) against the general one (`Dwarf` with one unit): the same requests
+/// give byte-identical sections. Both are filled by the same routine: entries with strings in both tables, a reference,
+/// a range list, a location list with an expression referring to an entry, and a line program whose names live in the
+/// string tables.
+fn check_dwarf_unit(ch: &mut Choices, cx: &mut Ctx) -> R {
+    use crate::{ensure_eq, fail};
+    use gimli::write as w;
+    cx.label("DwarfUnit against Dwarf");
+    let big = ch.bool();
+    let endian = if big { gimli::RunTimeEndian::Big } else { gimli::RunTimeEndian::Little };
+    let version = ch.pick(&[5u16, 4, 3, 2, 5]);
+    let enc = gimli::Encoding { format: if ch.chance(64) { gimli::Format::Dwarf64 } else { gimli::Format::Dwarf32 }, version, address_size: ch.pick(&[8u8, 4]) };
+    let names: Vec<Vec<u8>> = (0..3).map(|_| gen_bytes(ch, 3)).collect();
+    let nkids = 1 + ch.below(4);
+    let kinds: Vec<usize> = (0..nkids).map(|_| ch.below(5)).collect();
+    let base = 0x1000 + ch.below(16) as u64 * 0x100;
+    let with_lines = ch.chance(170);
+    let str_kind = ch.below(3);
+    cx.sample_with(|| format!("{:?} children {:?} names {:?} line program {} string kind {}", enc, kinds, names, with_lines, str_kind));
+    let fill = |unit: &mut w::Unit, strings: &mut w::StringTable, line_strings: &mut w::LineStringTable| {
+        if with_lines {
+            let mut mk = |b: &[u8]| match (enc.version >= 5, str_kind) {
+                (true, 1) => w::LineString::StringRef(strings.add(b.to_vec())),
+                (true, 2) => w::LineString::LineStringRef(line_strings.add(b.to_vec())),
+                _ => w::LineString::String(b.to_vec()),
+            };
+            let mut lp = w::LineProgram::new(enc, gimli::LineEncoding::default(), mk(b"/wd"), None, mk(b"main.c"), None);
+            let d = lp.default_directory();
+            let f = lp.add_file(mk(b"other.c"), d, None);
+            lp.begin_sequence(Some(w::Address::Constant(base)));
+            lp.row().file = f;
+            lp.row().line = 3;
+            lp.generate_row();
+            lp.row().address_offset = 8;
+            lp.row().line = 5;
+            lp.generate_row();
+            lp.end_sequence(16);
+            unit.line_program = lp;
+        }
+        let root = unit.root();
+        unit.get_mut(root).set(gimli::DW_AT_name, w::AttributeValue::StringRef(strings.add(names[0].clone())));
+        unit.get_mut(root).set(gimli::DW_AT_low_pc, w::AttributeValue::Address(w::Address::Constant(base)));
+        if with_lines {
+            unit.get_mut(root).set(gimli::DW_AT_stmt_list, w::AttributeValue::LineProgramRef);
+        }
+        let mut first: Option<w::UnitEntryId> = None;
+        for (k, kind) in kinds.iter().enumerate() {
+            let id = unit.add(root, gimli::DW_TAG_variable);
+            match kind {
+                0 => unit.get_mut(id).set(gimli::DW_AT_name, w::AttributeValue::StringRef(strings.add(names[1].clone()))),
+                1 => unit.get_mut(id).set(gimli::DW_AT_name, w::AttributeValue::LineStringRef(line_strings.add(names[2].clone()))),
+                2 => {
+                    let list = w::RangeList(vec![w::Range::StartLength { begin: w::Address::Constant(base + 0x10 * k as u64), length: 8 }]);
+                    let rid = unit.ranges.add(list);
+                    unit.get_mut(id).set(gimli::DW_AT_ranges, w::AttributeValue::RangeListRef(rid));
+                }
+                3 => {
+                    let mut e = w::Expression::new();
+                    if let Some(t) = first {
+                        e.op_call(t);
+                    }
+                    e.op_reg(gimli::Register(3));
+                    let list = w::LocationList(vec![w::Location::StartEnd { begin: w::Address::Constant(base + 0x20), end: w::Address::Constant(base + 0x30), data: e }]);
+                    let lid = unit.locations.add(list);
+                    unit.get_mut(id).set(gimli::DW_AT_location, w::AttributeValue::LocationListRef(lid));
+                }
+                _ => {
+                    if let Some(t) = first {
+                        unit.get_mut(id).set(gimli::DW_AT_type, w::AttributeValue::UnitRef(t));
+                    }
+                }
+            }
+            first.get_or_insert(id);
+        }
+    };
+    let collect = |s: &w::Sections<w::EndianVec<gimli::RunTimeEndian>>| -> Vec<(&'static str, Vec<u8>)> {
+        let mut out = Vec::new();
+        let _ = s.for_each(|id, data| -> Result<(), ()> {
+            out.push((id.name(), data.slice().to_vec()));
+            Ok(())
+        });
+        out
+    };
+    let a = {
+        let mut d = w::Dwarf::new();
+        let mut unit = w::Unit::new(enc, w::LineProgram::none());
+        fill(&mut unit, &mut d.strings, &mut d.line_strings);
+        d.units.add(unit);
+        let mut s = w::Sections::new(w::EndianVec::new(endian));
+        d.write(&mut s).map(|_| collect(&s)).map_err(|e| format!("{:?}", e))
+    };
+    let b = {
+        let mut du = w::DwarfUnit::new(enc);
+        fill(&mut du.unit, &mut du.strings, &mut du.line_strings);
+        let mut s = w::Sections::new(w::EndianVec::new(endian));
+        du.write(&mut s).map(|_| collect(&s)).map_err(|e| format!("{:?}", e))
+    };
+    match (&a, &b) {
+        (Ok(x), Ok(y)) => {
+            for ((n1, d1), (_, d2)) in x.iter().zip(y.iter()) {
+                ensure_eq!(d2, d1, "c11/dwarf-unit/section-differs", "{}", n1);
+            }
+            cx.nt();
+        }
+        (Err(x), Err(y)) => ensure_eq!(y, x, "c11/dwarf-unit/error-differs"),
+        _ => fail!("c11/dwarf-unit/outcome-differs", "Dwarf: {:?} DwarfUnit: {:?}", a.as_ref().map(|_| ()), b.as_ref().map(|_| ())),
+    }
+    Ok(())
+}
+
 /// The writer's section set: each section is reachable under its own id and no other (`get`, `get_mut`, `for_each`,
 /// `for_each_mut`), and the sections gimli does not write are absent.
 fn check_sections_plumbing() -> R {
@@ -431,6 +553,9 @@ impl Prop for C11 {
         if ch.chance(2) {
             cx.label("writer section set");
             return check_sections_plumbing();
+        }
+        if ch.chance(8) {
+            return check_dwarf_unit(ch, cx);
         }
         if ch.chance(12) {
             // a relocatable object: the unit base (and every other address) is a symbol plus addend
